@@ -204,6 +204,11 @@ func drawConfig(t *rapid.T) config {
 		ClientMaxWindowBits:     bits("f.cmwb"),
 	}
 	c.CliHeader = drawHeaders(t, "Cli", true)
+	if rapid.IntRange(0, 11).Draw(t, "extrakey") == 0 {
+		// the caller's own header writer repeats Sec-WebSocket-Key with a value of the wrong length
+		// (28 or 20 characters): whatever the server makes of it, both peers must still agree
+		c.CliHeader = append(c.CliHeader, [2]string{"Sec-WebSocket-Key", rapid.SampledFrom([]string{"QUJDREVGR0hJSktMTU5PUFFSU1Q=", "QUJDREVGR0hJSktMTU4="}).Draw(t, "key")})
+	}
 	if len(c.ExtraProto) > 0 {
 		// optional whitespace around the value and the list separators, as an independent RFC 7230 peer may write it
 		pad := rapid.SampledFrom([]string{"", "", " ", "\t", " \t "}).Draw(t, "ows")
